@@ -69,6 +69,22 @@ fn spice(rng: &mut Rng, w: &mut gen::GWorld) {
             }
         }
     }
+    if rng.chance(1, 3) {
+        // policy entries that set nothing: a bare table only naming a crate or a version (the
+        // shape the dependency-criteria rule demands for sibling versions, and what
+        // `regenerate audit-as-crates-io` leaves behind)
+        let bare = PolicyEntry { audit_as_crates_io: None, criteria: None, dev_criteria: None, dependency_criteria: CriteriaMap::new(), notes: None };
+        if rng.chance(1, 2) {
+            w.config.policy.package.insert("zz-bare".into(), PackagePolicyEntry::Unversioned(bare.clone()));
+        }
+        let mut vs = SortedMap::new();
+        vs.insert(VetVersion::parse("1.0.0").unwrap(), bare.clone());
+        vs.insert(VetVersion::parse("2.0.0").unwrap(), PolicyEntry { criteria: Some(vec![gen::sp(SAFE_TO_RUN.to_owned())]), ..bare.clone() });
+        if rng.chance(1, 2) {
+            vs.insert(VetVersion::parse("3.0.0@git:dddddddddddddddddddddddddddddddddddddddd").unwrap(), bare);
+        }
+        w.config.policy.package.insert("zz-versions".into(), PackagePolicyEntry::Versioned { version: vs });
+    }
     for l in w.audits.wildcard_audits.values_mut() {
         for a in l.iter_mut() {
             a.renew = *rng.pick(&[None, Some(true), Some(false)]);
@@ -123,13 +139,19 @@ fn text_roundtrip(r: &mut Report, rng: &mut Rng, i: u64) {
             return;
         }
     };
-    // nothing lost or altered
-    let mut a0 = w.audits.clone();
-    crate::serialization::Tidyable::tidy(&mut a0);
-    let mut i0 = w.imports.clone();
-    crate::serialization::Tidyable::tidy(&mut i0);
+    // nothing lost or altered: what was written must read back equal up to what "tidy" is
+    // documented to do — sort the lists and drop empty ones (an independent normalisation, not
+    // the code's own `tidy`; policy tables, criteria, import settings must come back verbatim)
+    fn norm_list<T: Ord + Clone>(m: &SortedMap<String, Vec<T>>) -> SortedMap<String, Vec<T>> {
+        m.iter().filter(|(_, l)| !l.is_empty()).map(|(k, l)| { let mut l = l.clone(); l.sort(); (k.clone(), l) }).collect()
+    }
+    fn norm_audits(f: &AuditsFile) -> AuditsFile {
+        AuditsFile { criteria: f.criteria.clone(), wildcard_audits: norm_list(&f.wildcard_audits), audits: norm_list(&f.audits), trusted: norm_list(&f.trusted) }
+    }
+    let a0 = norm_audits(&w.audits);
+    let i0 = ImportsFile { unpublished: norm_list(&w.imports.unpublished), publisher: norm_list(&w.imports.publisher), audits: w.imports.audits.iter().map(|(k, f)| (k.clone(), norm_audits(f))).collect() };
     let mut c0 = w.config.clone();
-    crate::serialization::Tidyable::tidy(&mut c0);
+    c0.exemptions = norm_list(&w.config.exemptions);
     if store1.audits != a0 {
         r.fail("oracle", "C14/audits-altered", format!("audits.toml reads back differently:\nwritten {:?}\nread    {:?}", a0, store1.audits).chars().take(1500).collect(), &case);
     }
